@@ -385,6 +385,21 @@ func trimStack(b []byte) string {
 	return strings.Join(out, "\n")
 }
 
+// clientRejection reports whether err is a verdict of the client itself (a
+// verification it performs on the host's answer failed, or it refused its
+// own parameters), as opposed to a host error or a transport failure.
+func clientRejection(err error) bool {
+	if err == nil {
+		return false
+	}
+	var re *rhp4.RPCError
+	if errors.As(err, &re) && re.Code == rhp4.ErrorCodeClientError {
+		return true
+	}
+	msg := err.Error()
+	return strings.Contains(msg, "failed to validate host signature") || strings.Contains(msg, "failed to verify") || strings.Contains(msg, "invalid proof")
+}
+
 func isDeadline(err error) bool {
 	return errors.Is(err, context.DeadlineExceeded)
 }
